@@ -37,7 +37,7 @@ func (c *c19) Meta() engine.Meta {
 		Category:  "model_checking",
 		LevelName: "number of deviations of the history from the default",
 		Technique: "exhaustive (path x key x height x moment) query enumeration over deviation-bounded histories on the real application: immutability, agreement with the committed state dump, twin oracle for read-onlyness",
-		Rule: "histories: dense history (g3, g4L), small-stake/evidence history, each with every single appended deviation from a stake/governance menu, and with one restart at several boundaries. " +
+		Rule: "histories: dense history (g3, g4L), small-stake/evidence history, a history with delegatees whose own stake is below the validator minimum and a validator that delegates to another validator (g3bm), each with every single appended deviation from a stake/governance menu, and with one restart at several boundaries. " +
 			"At every gap between consensus calls (before/after BeginBlock, after each DeliverTx, after EndBlock, after Commit) EVERY query of the universe is asked: paths account / delegatee / stakes / stakes/total_power / reward / proposal / gov_params x keys {U0,U1,W,V0,V1,V2,V3,X, every proposal hash, none} x heights {0, 1..latest, latest+1}. " +
 			"Oracle: (1) the answer returned for (path,key,h) (bytes, after JSON key-order canonicalisation) never changes once h is committed - also in the middle of later blocks, after later blocks and after a restart; (2) the first answer agrees with the complete state dump taken at height h (account nonce/balance/name, delegatee powers and stakes, an owner's stakes, total power, withdrawable reward, proposal status, parameters); (3) height 0 == latest; (4) a height beyond the latest is an error; (5) the replica that served all these queries (and vm-less CheckTx-free traffic only) returns the same consensus responses as a replica that served none. " +
 			"evaluations = histories; counters.queries = individual queries. distinct_nontrivial = histories in which at least one historical answer differs from the latest answer for the same key (the history really changed what is queried).",
@@ -58,18 +58,20 @@ func (c *c19) build() {
 	}
 	c.base["g3s"] = smallStakeHistory(genesis3s())
 	c.slots["g3s"] = historySlots(c.base["g3s"], c07Menu(), false)
+	c.base["g3bm"] = belowMinimumHistory(genesis3())
+	c.slots["g3bm"] = historySlots(c.base["g3bm"], c07Menu(), false)
 }
 
 func (c *c19) Prepare(tier string, seed int64) error {
 	c.tier = tier
 	c.build()
 	c.cases = nil
-	for _, v := range []string{"g3", "g3s", "g4L"} {
+	for _, v := range []string{"g3", "g3s", "g4L", "g3bm"} {
 		for _, r := range []int64{0, 1, 2, 3, 4, 5, 6, 7} {
 			c.cases = append(c.cases, c19Case{Variant: v, Restart: r, Lv: 0})
 		}
 	}
-	for _, v := range []string{"g3", "g4L", "g3s"} {
+	for _, v := range []string{"g3", "g4L", "g3s", "g3bm"} {
 		ss := c.slots[v]
 		core := func(s, ch int) bool {
 			if tier == "thorough" {
@@ -348,6 +350,17 @@ func agreeWithState(path, name string, key []byte, code uint32, val []byte, st *
 		}
 		if len(q) != len(want) {
 			return fmt.Sprintf("state has %d stakes owned by %s, the query lists %d", len(want), name, len(q))
+		}
+		for _, x := range q {
+			found := false
+			for k, pw := range want {
+				if strings.HasPrefix(k, strings.ToUpper(x.TxHash)+"/") && pw == x.Power {
+					found = true
+				}
+			}
+			if !found {
+				return fmt.Sprintf("the query lists stake %s power %s, which %s does not own in the committed state", x.TxHash, x.Power, name)
+			}
 		}
 	case "stakes/total_power":
 		sum := int64(0)
